@@ -403,7 +403,7 @@ func TestC04(t *testing.T) {
 	}
 	maxLen := pickTier(25, 40)
 	ctlOpen := knownOpen("C04", "echoed-control")
-	c04Sub.rapidCheck(t, pickTier(3000, 25000), func(rt *rapid.T) hCase {
+	c04Sub.rapidCheck(t, pickTier(8000, 25000), func(rt *rapid.T) hCase {
 		c := genHistory(rt, maxLen, !ctlOpen)
 		c.Discipline = genDiscipline(rt)
 		c.CutSeed = rapid.IntRange(0, 1<<20).Draw(rt, "cutseed")
